@@ -136,6 +136,9 @@ namespace foonathan
 
                 object_leak_checker& operator=(object_leak_checker&& other) noexcept
                 {
+                    // what is still outstanding here is lost with the assignment, report it like the destructor
+                    if (allocated_ != 0)
+                        this->operator()(allocated_);
                     allocated_       = other.allocated_;
                     other.allocated_ = 0;
                     return *this;
